@@ -11,6 +11,7 @@
 /// 6.  Unlink the files logged in 4.
 /// 7.  Log to remove every file listed in 4's edit.
 use std::cmp::Ordering;
+use std::collections::HashMap;
 use std::fs::{read_dir, remove_file};
 use std::path::{Path, PathBuf};
 
@@ -60,6 +61,12 @@ impl LsmVerifier {
 
     pub fn verify(&mut self) -> Result<(), SError> {
         let mut entries = list_mani_fragments(&self.root)?;
+        // Files are named after their contents, so a compaction can write a file again that an
+        // earlier edit removed, and a later edit can remove it again.  There is one copy of such a
+        // file in the trash (the later move replaces the earlier one), and the fragments that add
+        // it back and remove it again read it when they are verified.  It belongs to the last edit
+        // that removes it:  the earlier removals leave it alone.
+        let last_removals = last_removals(&entries)?;
         // Drop the last #'d entry and the main file.
         // We need to keep it around so that a crash/restart
         // of mani will pick a strictly higher log number.
@@ -68,14 +75,19 @@ impl LsmVerifier {
         // to put these at the end.  If we pop too much, that's OK.
         entries.pop();
         entries.pop();
-        for entry in entries {
+        for (fragment, entry) in entries.iter().enumerate() {
             // 1. We're going to always process the lowest numbered log.
-            self.process_one(&entry)?;
+            self.process_one(entry, fragment, &last_removals)?;
         }
         Ok(())
     }
 
-    fn process_one(&mut self, entry: &PathBuf) -> Result<(), SError> {
+    fn process_one(
+        &mut self,
+        entry: &PathBuf,
+        fragment: usize,
+        last_removals: &HashMap<String, (usize, usize)>,
+    ) -> Result<(), SError> {
         // This will conditionally perform steps 6 and 7 if there's an unprocessed edit.
         self.possibly_complete_processing(entry)?;
         if let Some(last_entry_processed) = self.mani.info('M') {
@@ -91,7 +103,8 @@ impl LsmVerifier {
         assert!(self.mani.strs().count() == 0);
         // 2.  Collect the list of ssts and logs to be removed.  Wait until all are present.
         let verifier_setsum = setsum_from_info_default('O', self.mani.info('O'))?;
-        let (output_setsum, ssts_to_rm, logs_to_rm) = self.verify_one(entry, verifier_setsum)?;
+        let (output_setsum, ssts_to_rm, logs_to_rm) =
+            self.verify_one(entry, fragment, last_removals, verifier_setsum)?;
         let mut edit = Edit::default();
         for sst in ssts_to_rm.iter() {
             let path = TRASH_SST(&self.root, *sst);
@@ -144,6 +157,8 @@ impl LsmVerifier {
     fn verify_one(
         &self,
         entry: &PathBuf,
+        fragment: usize,
+        last_removals: &HashMap<String, (usize, usize)>,
         mut acc: Setsum,
     ) -> Result<(Setsum, Vec<Setsum>, Vec<u64>), SError> {
         let mani_iter = ManifestIterator::open(entry)?;
@@ -151,7 +166,7 @@ impl LsmVerifier {
         let mut logs_to_remove = vec![];
         let mut last_outputs = None;
         let mut first = true;
-        for edit in mani_iter {
+        for (edit_idx, edit) in mani_iter.enumerate() {
             let edit = edit?;
             let inputs = setsum_from_info('I', edit.get_info('I'))?;
             let outputs = setsum_from_info('O', edit.get_info('O'))?;
@@ -202,8 +217,11 @@ impl LsmVerifier {
                     self.verify_contents(setsum)?;
                 }
                 // An edit that removes and adds the same file (a compaction that reproduced one of
-                // its inputs) leaves that file in place; it is not trash.
-                if !edit.added().any(|added| added == rmed) {
+                // its inputs) leaves that file in place; it is not trash.  A file that a later edit
+                // removes again is that edit's trash.
+                if !edit.added().any(|added| added == rmed)
+                    && last_removals.get(rmed) == Some(&(fragment, edit_idx))
+                {
                     ssts_to_remove.push(setsum);
                 }
             }
@@ -482,6 +500,24 @@ fn setsum_from_info_default(info: char, value: Option<&str>) -> Result<Setsum, S
 }
 
 ////////////////////////////////////////// public helpers //////////////////////////////////////////
+
+/// For every file the manifest fragments remove (and do not add back in the same edit), the place
+/// of the last edit that does so:  the index of its fragment in `entries` and the index of the
+/// edit in that fragment.
+fn last_removals(entries: &[PathBuf]) -> Result<HashMap<String, (usize, usize)>, SError> {
+    let mut last_removals = HashMap::new();
+    for (fragment, entry) in entries.iter().enumerate() {
+        for (edit_idx, edit) in ManifestIterator::open(entry)?.enumerate() {
+            let edit = edit?;
+            for rmed in edit.rmed() {
+                if !edit.added().any(|added| added == rmed) {
+                    last_removals.insert(rmed.clone(), (fragment, edit_idx));
+                }
+            }
+        }
+    }
+    Ok(last_removals)
+}
 
 pub fn list_mani_fragments<P: AsRef<Path>>(root: P) -> Result<Vec<PathBuf>, SError> {
     let mut entries = vec![];
